@@ -114,7 +114,7 @@ Print Assumptions C17_merge_timeout_plain_min_refuted.
 (* The reader with the arithmetic Go performs (int64, wrapping l.n+1 and l.n-n, panicking
    p[:l.n+1]): for EVERY remaining allowance 0 <= n <= 2^63-1 nothing wraps, the coded Read never
    panics and IS the ideal reader of C17_limit_exact.  Buffer lengths are Go ints (< 2^63); that is
-   only needed at n = 2^63-1, where `int64(len(p))-1 > l.n` (ec3b610) must not hold. *)
+   only needed at n = 2^63-1, where `int64(len(p))-1 > l.n` (fb48e01) must not hold. *)
 Theorem C17_int64_read_refines_ideal :
   forall (A : Type) (s : @mbr A) m,
   0 <= m_n s <= max_int64 -> (m_n s < max_int64 \/ Z.of_nat m < two63) ->
@@ -206,7 +206,7 @@ Proof. repeat split; vm_compute; reflexivity. Qed.
 
 (* the parsed value is number*unit EXACTLY (unbounded integers), or an error: an accepted string
    denotes sign/digits/unit, its number is non-negative, and the configured value is the true product,
-   which lies within 1..2^63-1 (parseSize forms the int64 product only when it fits: b9c6637) *)
+   which lies within 1..2^63-1 (parseSize forms the int64 product only when it fits: 0d07837) *)
 Theorem C17_parse_size_exact :
   forall s v, accept_size s = Some v ->
   exists n u, denote s = Some (n, u) /\ v = n * u /\ 1 <= v <= max_int64 /\
@@ -256,7 +256,7 @@ Proof. vm_compute. reflexivity. Qed.
 
 (* FULL strength: whenever the reader reports too-large the client sees 413 — for every consumer
    the model covers (streaming proxy, proxy buffering for retries, fastcgi) and both framings
-   (F-C17-4/5/6 repaired: casket bdcc677, c877bef, e7d21d5) *)
+   (F-C17-4/5/6 repaired: casket 2f5115a, a49e1c0, 34218d7) *)
 Theorem C17_too_large_is_413 :
   forall k clf bs, consumer_status k clf (Some TooLarge) bs = 413.
 Proof. exact too_large_is_413. Qed.
